@@ -560,3 +560,110 @@ func variadicElems(v ssa.Value) []ssa.Value {
 	}
 	return out
 }
+
+// ---------------------------------------------------------------------------------------------
+// size gate: what is done for each element of a list must not depend on how many elements the list has. A loop that is
+// reached only when len(list) passes a threshold of 2 or more ("fewer than eight statements cannot add up to a repeated
+// switch") silently skips the per-element work — and everything else that work feeds — for the short lists. Tests for
+// emptiness (0, 1) are not thresholds.
+func runSizeGate(p *Program, c *Collector, a FuncRuleSpec) {
+	n := 0
+	for _, fn := range expandFuncs(p, c, a.Funcs, a.Props...) {
+		if len(fn.Blocks) == 0 {
+			continue
+		}
+		sf := newSymFn(p, fn, 0)
+		sf.inlineOK = func(*ssa.Function) bool { return false }
+		var hs []*ssa.BasicBlock
+		for h := range sf.headers {
+			hs = append(hs, h)
+		}
+		sort.Slice(hs, func(i, j int) bool { return hs[i].Index < hs[j].Index })
+		for _, h := range hs {
+			coll := sf.loopCollection(h)
+			if coll == nil {
+				continue
+			}
+			if has, _ := coll.hasUnknown(); has {
+				continue
+			}
+			n++
+			cs := coll.String()
+			// the condition under which the loop is entered: what holds in the blocks that jump to the header from outside
+			var outside *Sym
+			for _, pred := range h.Preds {
+				if !sf.headers[h][pred] {
+					pc := sf.pathCond(pred)
+					if outside == nil {
+						outside = pc
+					} else {
+						outside = sOr(outside, pc)
+					}
+				}
+			}
+			if outside == nil {
+				continue
+			}
+			bad := ""
+			// only demands for a minimum length count (len >= k, !(len < k)); a cap (len <= k) leaves the short lists in
+			var look func(x *Sym, neg bool)
+			look = func(x *Sym, neg bool) {
+				if x == nil {
+					return
+				}
+				if x.Op == "not" && len(x.Kids) == 1 {
+					look(x.Kids[0], !neg)
+					return
+				}
+				if x.Op == "bin" && len(x.Kids) == 2 && (x.Name == "&&" || x.Name == "||") {
+					look(x.Kids[0], neg)
+					look(x.Kids[1], neg)
+					return
+				}
+				if x.Op != "bin" || len(x.Kids) != 2 {
+					return
+				}
+				for i := 0; i < 2; i++ {
+					l, k := x.Kids[i], x.Kids[1-i]
+					if l.Op != "len" || len(l.Kids) != 1 || l.Kids[0].String() != cs {
+						continue
+					}
+					v, ok := symInt(k)
+					if !ok {
+						continue
+					}
+					op := x.Name
+					if i == 1 { // k OP len  ->  len OP' k
+						op = map[string]string{"<": ">", "<=": ">=", ">": "<", ">=": "<=", "==": "==", "!=": "!="}[op]
+					}
+					if neg {
+						op = map[string]string{"<": ">=", "<=": ">", ">": "<=", ">=": "<", "==": "!=", "!=": "=="}[op]
+					}
+					min := int64(0) // the smallest length the test lets through
+					switch op {
+					case ">":
+						min = v + 1
+					case ">=", "==":
+						min = v
+					}
+					if min >= 2 {
+						bad = x.String()
+						if neg {
+							bad = "!" + bad
+						}
+					}
+				}
+			}
+			look(outside, false)
+			key := "sizegate:" + p.FuncKey(fn) + " loop over " + clip(cs, 60)
+			if bad != "" {
+				c.Ob(a.Props, "E7.size-gate", key, Violated, a.What+": the loop over "+clip(cs, 60)+" in "+shortFn(p.FuncKey(fn))+" is entered only under "+bad+": for a shorter list none of the per-element work is done", p.InstrPos(h.Instrs[0]), false)
+			} else {
+				c.Ob(a.Props, "E7.size-gate", key, Discharged, "the loop is entered whatever the length of the list", p.InstrPos(h.Instrs[0]), true)
+			}
+		}
+	}
+	if n == 0 {
+		c.Ob(a.Props, "E7.size-gate", "sizegate:"+strings.Join(a.Funcs, ","), Undecided, a.What+": no loop over a list found (anchor lost)", "", false)
+	}
+}
